@@ -26,6 +26,78 @@ var solvers = []solverSpec{
 	{"z3", func(f string, ms int) []string { return []string{"-smt2", fmt.Sprintf("-t:%d", ms), f} }, "z3"},
 }
 
+// symbolsOf collects the identifier tokens of an SMT text.
+func symbolsOf(s string, into map[string]bool) {
+	start := -1
+	for i := 0; i <= len(s); i++ {
+		if i < len(s) && s[i] != ' ' && s[i] != '(' && s[i] != ')' {
+			if start < 0 {
+				start = i
+			}
+			continue
+		}
+		if start >= 0 {
+			into[s[start:i]] = true
+			start = -1
+		}
+	}
+}
+
+// smtTextFiltered drops quantified assumptions that share no heap array / ghost
+// / function symbol with the goal. Dropping assumptions is sound for a validity
+// check; if the filtered query is not unsat the full one is tried.
+func smtTextFiltered(o *Obligation) (string, bool) {
+	goalSyms := map[string]bool{}
+	symbolsOf(o.Goal.S, goalSyms)
+	// one step of relevance through definitions used by the goal
+	defs := map[string]string{}
+	for _, l := range o.Lines {
+		if strings.HasPrefix(l, "(define-fun ") {
+			f := strings.Fields(l)
+			defs[f[1]] = l
+		}
+	}
+	for round := 0; round < 6; round++ {
+		grew := false
+		for n, l := range defs {
+			if goalSyms[n] {
+				before := len(goalSyms)
+				symbolsOf(l, goalSyms)
+				if len(goalSyms) > before {
+					grew = true
+				}
+			}
+		}
+		if !grew {
+			break
+		}
+	}
+	dropped := false
+	var b strings.Builder
+	b.WriteString("(set-logic ALL)\n")
+	for _, l := range o.Lines {
+		if strings.HasPrefix(l, "(assert (forall") || strings.HasPrefix(l, "(assert (or (and (= now.join") {
+			syms := map[string]bool{}
+			symbolsOf(l, syms)
+			rel := false
+			for s := range syms {
+				if goalSyms[s] && (strings.HasPrefix(s, "H") || strings.HasPrefix(s, "sf.") || strings.Contains(s, "!")) && !strings.HasPrefix(s, "q.") {
+					rel = true
+					break
+				}
+			}
+			if !rel {
+				dropped = true
+				continue
+			}
+		}
+		b.WriteString(l)
+		b.WriteByte('\n')
+	}
+	b.WriteString("(assert (not " + o.Goal.S + "))\n(check-sat)\n")
+	return b.String(), dropped
+}
+
 func smtText(o *Obligation, model bool) string {
 	var b strings.Builder
 	if model {
@@ -86,6 +158,43 @@ func runSolver(ctx context.Context, sp solverSpec, file string, timeoutMs int) (
 // definitive answer wins; in thorough mode all answers are collected to
 // detect disagreement.
 func (eng *Engine) solve(o *Obligation, timeoutMs int, all bool) {
+	if !o.ExpectSat && !all {
+		if ft, dropped := smtTextFiltered(o); dropped {
+			// stage A: without quantified assumptions unrelated to the goal
+			h := sha256.Sum256([]byte(ft))
+			file := filepath.Join(eng.tmpdir, fmt.Sprintf("%x.a.smt2", h[:8]))
+			os.WriteFile(file, []byte(ft), 0o644)
+			ctx, cancel := context.WithCancel(context.Background())
+			type ans struct {
+				solver, status string
+				ms             int64
+			}
+			ch := make(chan ans, len(solvers))
+			for _, sp := range solvers {
+				sp := sp
+				go func() {
+					t0 := time.Now()
+					st, _ := runSolver(ctx, sp, file, 3000)
+					ch <- ans{sp.name, st, time.Since(t0).Milliseconds()}
+				}()
+			}
+			got := false
+			for i := 0; i < len(solvers); i++ {
+				a := <-ch
+				if a.status == "unsat" && !got {
+					got = true
+					o.Status, o.Solver, o.TimeMs = "unsat", a.solver, a.ms
+					o.Answers = map[string]string{a.solver: "unsat"}
+					o.SMTFile = file
+					cancel()
+				}
+			}
+			cancel()
+			if got {
+				return
+			}
+		}
+	}
 	text := smtText(o, false)
 	h := sha256.Sum256([]byte(text))
 	file := filepath.Join(eng.tmpdir, fmt.Sprintf("%x.smt2", h[:8]))
